@@ -648,4 +648,37 @@ Section Proofs.
     destruct (run_comm ops t0 _ (spec_new_good cap dttl b Hc) Hf) as [H _]. rewrite H. cbn [snd conc mk_of entries].
     apply (spec_run_ok ops t0 (spec_new cap dttl b)). constructor.
   Qed.
+
+  (* ---- what get() serves, in plain terms ---- *)
+  Lemma key_unique (l : list entry) e e' :
+    NoDup (keys l) -> In e l -> In e' l -> e_key e = e_key e' -> e = e'.
+  Proof.
+    induction l as [|a l IH]; intros Hn H1 H2 Hk; [destruct H1|].
+    cbn [keys map] in Hn. apply NoDup_cons_iff in Hn. destruct Hn as [Hn1 Hn2].
+    destruct H1 as [H1|H1]; destruct H2 as [H2|H2].
+    - congruence.
+    - subst a. exfalso. apply Hn1. rewrite Hk. unfold keys. apply in_map, H2.
+    - subst a. exfalso. apply Hn1. rewrite <- Hk. unfold keys. apply in_map, H1.
+    - apply IH; assumption.
+  Qed.
+
+  Theorem get_serves_fresh t0 cap dttl b (ops : list op) k :
+    cap <= U64MAX -> dttl_ok dttl -> Forall op_ok ops ->
+    let w := snd (crun (t0, clp_new t0 cap dttl b) ops) in
+    match snd (clp_get (fst w) (snd w) k) with
+    | Some v => exists e, In e (entries (snd w)) /\ e_key e = k /\ e_val e = v /\ (fst w <= e_expires e)%Z
+    | None => forall e, In e (entries (snd w)) -> e_key e = k -> (e_expires e < fst w)%Z
+    end.
+  Proof.
+    intros Hc Hd Hf. destruct (reachable t0 cap dttl b ops Hc Hd Hf) as [now [s [H G]]].
+    cbv zeta. rewrite H. cbn [fst snd]. rewrite (get_comm now s k G). cbn [snd].
+    change (entries (conc s)) with (s_items s). destruct G as [Hn _].
+    unfold spec_get. destruct (find (has_key k) (s_items s)) as [e0|] eqn:F.
+    - pose proof (find_key _ _ _ F) as Hk. pose proof (find_some _ _ F) as [Hin _].
+      destruct (fresh now e0) eqn:Hfr; cbn [snd]; unfold fresh in Hfr.
+      + exists e0. repeat split; [exact Hin|exact Hk|lia].
+      + intros e He Hke. assert (e = e0) by (apply (key_unique _ _ _ Hn He Hin); congruence). subst e. lia.
+    - cbn [snd]. intros e He Hke. pose proof (find_none _ _ F e He) as Hx. cbv beta in Hx.
+      rewrite <- Hke, has_key_self in Hx. discriminate.
+  Qed.
 End Proofs.
